@@ -26,6 +26,7 @@ func init() {
 type vChain struct {
 	id     int
 	params map[string]string
+	trail  []int // ids of every marker handler of the chain, in order (group handlers, then the route's)
 }
 
 var (
@@ -42,7 +43,8 @@ var (
 type vReg struct {
 	stmt    int      // registration statement index
 	methods []string // methods it was registered for
-	path    string
+	path    string   // full path (group prefixes included)
+	groups  []int    // ids of the handlers of the groups the statement stands in, outermost first
 }
 
 // vCtx observes the chain the router starts.
@@ -56,14 +58,20 @@ func (c *vCtx) setAction(Handler) {}
 
 func (c *vCtx) run() {
 	id := -99
-	if len(c.handlers) > 0 {
-		switch h := c.handlers[len(c.handlers)-1].(type) {
+	var trail []int
+	for k, h := range c.handlers {
+		switch h := h.(type) {
 		case func():
 			vMark = -99
 			h()
-			id = vMark
+			trail = append(trail, vMark)
+			if k == len(c.handlers)-1 {
+				id = vMark
+			}
 		case httpHandlerFuncInvoker:
-			id = -1 // the default not-found chain (http.NotFound)
+			if k == len(c.handlers)-1 {
+				id = -1 // the default not-found chain (http.NotFound)
+			}
 		}
 	}
 	own := map[string]string{}
@@ -72,7 +80,7 @@ func (c *vCtx) run() {
 		own[k] = v
 	}
 	vx.MapOrders(vx.ParamInt("maporders") == 1)
-	vChains = append(vChains, vChain{id: id, params: own})
+	vChains = append(vChains, vChain{id: id, params: own, trail: trail})
 	if c.params != nil {
 		c.params["zz-note"] = "1" // a handler may keep a note in the bind parameters of its own request
 	}
@@ -92,69 +100,113 @@ func VH_Router_setup() {
 		return &vCtx{handlers: handlers, params: params}
 	}).(*router)
 	vRoutesAPI, vRegs, vHdr, vCustomNF, vHdrNames = nil, nil, nil, false, nil
-	for _, line := range strings.Split(vx.Param("prog"), "\n") {
-		f := strings.SplitN(line, " ", 3)
-		switch f[0] {
-		case "R":
-			stmt := len(vRoutesAPI)
-			var rt *Route
-			var methods []string
-			switch {
-			case f[1] == "*":
-				rt = vRouter.Any(f[2], vMarker(stmt))
-				methods = vAllMethods
-			case strings.Contains(f[1], ","):
-				rt = vRouter.Routes(f[2], f[1], vMarker(stmt))
-				methods = strings.Split(f[1], ",")
-			default:
-				rt = vRouter.Route(f[1], f[2], []Handler{vMarker(stmt)})
-				methods = []string{f[1]}
-			}
-			vRoutesAPI = append(vRoutesAPI, rt)
-			vRegs = append(vRegs, vReg{stmt: stmt, methods: methods, path: f[2]})
-			vHdr = append(vHdr, nil)
-		case "RS": // Routes() with the method text exactly as given ("*", lower case, lists)
-			stmt := len(vRoutesAPI)
-			rt := vRouter.Routes(f[2], f[1], vMarker(stmt))
-			var methods []string
-			if f[1] == "*" {
-				methods = vAllMethods
-			} else {
-				for _, m := range strings.Split(f[1], ",") {
-					methods = append(methods, strings.ToUpper(strings.TrimSpace(m)))
+	lines := strings.Split(vx.Param("prog"), "\n")
+	pos := 0
+	autoHead := false
+	var prefix string
+	var groupIDs []int
+	nextGroup := -100
+	var block func()
+	block = func() {
+		for pos < len(lines) {
+			line := lines[pos]
+			pos++
+			f := strings.SplitN(line, " ", 3)
+			switch f[0] {
+			case "E": // end of the innermost group
+				return
+			case "G": // G <prefix> [n]: a group with n (default 1) marker handlers of its own
+				n := 1
+				if len(f) > 2 {
+					n, _ = strconv.Atoi(f[2])
 				}
-			}
-			vRoutesAPI = append(vRoutesAPI, rt)
-			vRegs = append(vRegs, vReg{stmt: stmt, methods: methods, path: f[2]})
-			vHdr = append(vHdr, nil)
-		case "H":
-			stmt, _ := strconv.Atoi(f[1])
-			var pairs []string
-			if len(f) > 2 && f[2] != "" {
-				for _, kv := range strings.Split(f[2], ";") {
-					p := strings.SplitN(kv, "=", 2)
-					pairs = append(pairs, p[0], p[1])
-					seen := false
-					for _, n := range vHdrNames {
-						if n == p[0] {
-							seen = true
+				savedPrefix, savedIDs := prefix, groupIDs
+				prefix += f[1]
+				groupIDs = append([]int{}, groupIDs...)
+				var ghs []Handler
+				for k := 0; k < n; k++ {
+					gid := nextGroup
+					nextGroup--
+					groupIDs = append(groupIDs, gid)
+					ghs = append(ghs, vMarker(gid))
+				}
+				vRouter.Group(f[1], block, ghs...)
+				prefix, groupIDs = savedPrefix, savedIDs
+			case "A": // A 1 / A 0: AutoHead
+				autoHead = f[1] == "1"
+				vRouter.AutoHead(autoHead)
+			case "RG": // RG - <path>: router.Get, which AutoHead doubles for HEAD
+				stmt := len(vRoutesAPI)
+				rt := vRouter.Get(f[2], vMarker(stmt))
+				methods := []string{"GET"}
+				if autoHead {
+					methods = append(methods, "HEAD")
+				}
+				vRoutesAPI = append(vRoutesAPI, rt)
+				vRegs = append(vRegs, vReg{stmt: stmt, methods: methods, path: prefix + f[2], groups: groupIDs})
+				vHdr = append(vHdr, nil)
+			case "R":
+				stmt := len(vRoutesAPI)
+				var rt *Route
+				var methods []string
+				switch {
+				case f[1] == "*":
+					rt = vRouter.Any(f[2], vMarker(stmt))
+					methods = vAllMethods
+				case strings.Contains(f[1], ","):
+					rt = vRouter.Routes(f[2], f[1], vMarker(stmt))
+					methods = strings.Split(f[1], ",")
+				default:
+					rt = vRouter.Route(f[1], f[2], []Handler{vMarker(stmt)})
+					methods = []string{f[1]}
+				}
+				vRoutesAPI = append(vRoutesAPI, rt)
+				vRegs = append(vRegs, vReg{stmt: stmt, methods: methods, path: prefix + f[2], groups: groupIDs})
+				vHdr = append(vHdr, nil)
+			case "RS": // Routes() with the method text exactly as given ("*", lower case, lists)
+				stmt := len(vRoutesAPI)
+				rt := vRouter.Routes(f[2], f[1], vMarker(stmt))
+				var methods []string
+				if f[1] == "*" {
+					methods = vAllMethods
+				} else {
+					for _, m := range strings.Split(f[1], ",") {
+						methods = append(methods, strings.ToUpper(strings.TrimSpace(m)))
+					}
+				}
+				vRoutesAPI = append(vRoutesAPI, rt)
+				vRegs = append(vRegs, vReg{stmt: stmt, methods: methods, path: prefix + f[2], groups: groupIDs})
+				vHdr = append(vHdr, nil)
+			case "H":
+				stmt, _ := strconv.Atoi(f[1])
+				var pairs []string
+				if len(f) > 2 && f[2] != "" {
+					for _, kv := range strings.Split(f[2], ";") {
+						p := strings.SplitN(kv, "=", 2)
+						pairs = append(pairs, p[0], p[1])
+						seen := false
+						for _, n := range vHdrNames {
+							if n == p[0] {
+								seen = true
+							}
+						}
+						if !seen {
+							vHdrNames = append(vHdrNames, p[0])
 						}
 					}
-					if !seen {
-						vHdrNames = append(vHdrNames, p[0])
-					}
 				}
+				vRoutesAPI[stmt].Headers(pairs...)
+				vHdr[stmt] = pairs
+				if pairs == nil {
+					vHdr[stmt] = []string{}
+				}
+			case "NF":
+				vRouter.NotFound(vMarker(-2))
+				vCustomNF = true
 			}
-			vRoutesAPI[stmt].Headers(pairs...)
-			vHdr[stmt] = pairs
-			if pairs == nil {
-				vHdr[stmt] = []string{}
-			}
-		case "NF":
-			vRouter.NotFound(vMarker(-2))
-			vCustomNF = true
 		}
 	}
+	block()
 }
 
 type vNullWriter struct{ h http.Header }
@@ -298,6 +350,18 @@ func VH_Router_serve() {
 		impl = -1
 	}
 	vx.Assert(impl == exp, "C01/C07/C09: the chain run is that of the route the documented priority selects among eligible routes, else the not-found chain")
+	if impl >= 0 && impl < len(vRegs) {
+		want := append(append([]int{}, vRegs[impl].groups...), impl)
+		sameTrail := len(got.trail) == len(want)
+		if sameTrail {
+			for k := range want {
+				if got.trail[k] != want[k] {
+					sameTrail = false
+				}
+			}
+		}
+		vx.Assert(sameTrail, "C07: the chain run is exactly that of the chosen route: its groups' handlers, outermost first, then its own")
+	}
 	if impl >= 0 && paramsOK != nil {
 		vx.Reach("dispatched")
 		vx.Assert(paramsOK(impl, got.params), "C02: bind parameters at ServeHTTP level")
